@@ -28,6 +28,7 @@ def build(m, assign, targets, light=False):
     ext = [anytree.Node("e0", data=["ext"]), None]
     ext[1] = anytree.Node("e1", parent=ext[0])
     nodes = [None] * m.n
+    labels = []
     order = [i for i in range(m.n) if assign[i] != "symlink"] + [i for i in range(m.n) if assign[i] == "symlink"]
     # links to links: create link targets first
     pending = [i for i in order if assign[i] == "symlink"]
@@ -37,6 +38,13 @@ def build(m, assign, targets, light=False):
             continue
         name = "n%d" % i
         data = ["d%d" % i, {"k": i}]
+        if not light and i % 2 == 0:
+            # the name (Node) / an attribute value is an object that refers back into the tree
+            name = pickcls.PLabel(name)
+            labels.append((i, name))
+            if assign[i] != "node":
+                data.append(name)
+                name = "n%d" % i
         if light:
             nodes[i] = pickcls.PLight(name, data)
         elif assign[i] == "node":
@@ -69,6 +77,8 @@ def build(m, assign, targets, light=False):
             progress = True
     if pending:
         return None, None  # cyclic link targets: not constructible
+    for i, lb in labels:
+        lb.node = nodes[i] if i % 4 == 0 else nodes[(i + 1) % m.n]
     for i in range(m.n):
         if m.par[i] is not None:
             nodes[i].parent = nodes[m.par[i]]
@@ -160,7 +170,26 @@ def check_copy(m, nodes, ext, entry, cp):
     if croot.parent is not None:
         why.append("copy root has a parent")
     import anytree
+    from .. import pickcls
 
+    def labels_in(v):
+        if isinstance(v, pickcls.PLabel):
+            yield v
+        elif isinstance(v, list):
+            for x in v:
+                for y in labels_in(x):
+                    yield y
+    for i, nd in enumerate(nodes):
+        if isinstance(nd, anytree.SymlinkNodeMixin):
+            continue
+        vo, vc = own_vars(nd), own_vars(mapping[i])
+        for k in vo:
+            for lo, lc in zip(labels_in(vo[k]), labels_in(vc.get(k))):
+                if lo is lc:
+                    why.append("attribute object of node %d is shared with the original" % i)
+                elif lc.node is not omap.get(id(lo.node)):
+                    why.append("an attribute value of node %d that refers back to node %d refers to another object in the copy "
+                               "(the copy is not one consistent object graph)" % (i, oidx.get(id(lo.node), -1)))
     for i, nd in enumerate(nodes):
         if isinstance(nd, anytree.SymlinkNodeMixin):
             tgt = object.__getattribute__(nd, "__dict__")["target"]
